@@ -62,6 +62,7 @@ Note(x) == TLCSet(2, Append(TLCGet(2), x))
 Report(line) ==
   /\ (chk' # {} => Note([run |-> Trace[line].run, line |-> line, t |-> now', clauses |-> chk']))
   /\ (~C01_Deadline' => Note([run |-> Trace[line].run, line |-> line, t |-> now', clauses |-> {"C01_eligible_alert_not_notified_within_bound"}]))
+  /\ (~C04_Deadline' => Note([run |-> Trace[line].run, line |-> line, t |-> now', clauses |-> {"C04_repeat_overdue"}]))
   /\ (~C05_Deadline' => Note([run |-> Trace[line].run, line |-> line, t |-> now', clauses |-> {"C05_resolution_not_notified_within_bound"}]))
 
 TraceNext == (Tick \/ Step) /\ Report(l)
